@@ -85,7 +85,7 @@ class World:
                        "refused_construction_inside_context", "api_sweep_call",
                        "context_object_reentered_while_active", "context_object_entered_again_after_exit",
                        "dipole_component_inside_context", "system_bath_interaction_shared_by_two_tensors",
-                       "evolution_reinitialised_inside_context"]
+                       "evolution_reinitialised_inside_context", "basis_change_reports_switched_on"]
     required_faults = ["F1_simfault", "F2_refused_write", "F3_dimension_mismatch"]
     components = {
         "real": ["Manager basis stack / registration / flags", "eigenbasis_of.__enter__/__exit__", "BasisManaged",
@@ -170,7 +170,8 @@ class World:
                 ops.append({"op": "copy", "k": rng.randrange(16), "how": rng.choice(["deepcopy", "deepcopy", "scopy"])})
             else:
                 ops.append({"op": k, "k": rng.randrange(16), "s": rng.randrange(16), "i": rng.randrange(8), "j": rng.randrange(8)})
-        return {"N": N, "complex": cplx, "kf_zone": kf_zone, "ops": ops}
+        # configuration: the Manager's documented option to report every basis change
+        return {"N": N, "complex": cplx, "kf_zone": kf_zone, "warn": rng.random() < 0.1, "ops": ops}
 
     def _gen_create(self, rng, classes, force_ctx=False):
         cls = rng.choice([c for c in classes if c in CONTEXT_CLASSES]) if force_ctx else rng.choice(classes)
@@ -576,10 +577,15 @@ class Runner:
     def go(self):
         ops = self.program["ops"]
         self.ctx.ev("cfg", self.N, self.cplx, self.kf)
+        if self.program.get("warn"):
+            self.m.warn_about_basis_change = True
+            self.ctx.probe("basis_change_reports_switched_on")
         try:
             self.interp(ops, 0)
         except SimFault:
             raise HarnessError("SimFault escaped depth 0")
+        finally:
+            self.m.warn_about_basis_change = False
         check(self.depth == 0, "harness", "interpreter ended at depth %d" % self.depth)
         # restoration at depth 0
         self.check_bookkeeping({"current": 0, "stack": 1, "transf": 1, "registered": []}, "end of program")
@@ -1280,9 +1286,14 @@ class Runner:
         """A refused construction (non-square data) inside a context is a fault like any other refused operation."""
         qr = self.qr
         self.ctx.fault("F2_refused_write")
-        how = op["s"] % 3
+        how = op["s"] % 5
         try:
-            if how == 0:
+            if how == 3:
+                d = self.levels[-1]["dim"] if self.levels else self.N
+                qr.qm.SuperOperator(data=numpy.zeros((d, d + 1, d, d)))       # not "square": refused after the data were taken
+            elif how == 4:
+                qr.qm.SuperOperator(data=numpy.zeros((2, 2, 2)))
+            elif how == 0:
                 qr.qm.Operator(data=numpy.zeros((2, 3)))
             elif how == 1:
                 d = self.levels[-1]["dim"] if self.levels else self.N
